@@ -11,6 +11,7 @@ import (
 	"reflect"
 	"sort"
 	"strings"
+	"time"
 
 	"verifharness/internal/coqfmt"
 )
@@ -435,4 +436,27 @@ func (p Printer) StructFieldsTerm(v reflect.Value) string {
 		parts[i] = p.ValTerm(v.Field(i))
 	}
 	return coqfmt.List(parts)
+}
+
+var tTime = reflect.TypeOf(time.Time{})
+
+// TimePrinter prints a time.Time as an opaque leaf: the instant as Unix seconds and nanoseconds; the
+// zero instant (what an unset field holds) as the empty text.
+var TimePrinter = Printer{
+	LeafTy: func(t reflect.Type) (string, bool) {
+		if t == tTime {
+			return "(TTextU " + coqfmt.Str("time.Time") + " true)", true
+		}
+		return "", false
+	},
+	LeafVal: func(v reflect.Value) (string, bool) {
+		if v.Type() == tTime {
+			tm := v.Interface().(time.Time)
+			if tm.IsZero() {
+				return "(VText " + coqfmt.Str("") + ")", true
+			}
+			return fmt.Sprintf("(VList [VInt (%d)%%Z; VInt (%d)%%Z])", tm.Unix(), tm.Nanosecond()), true
+		}
+		return "", false
+	},
 }
